@@ -10,3 +10,27 @@ add("C18", "exhaustive state enumeration + proptest over seeds/lengths/intervals
     "Exploration level: no claim beyond the enumerated/sampled domain.",
     "Trusts the harness's modular-inverse computation of the seed that leads to a given state; Tensor::random is clock-seeded so only seed-independent assertions are made.",
     "DESIGN.md 4/C18")
+
+add("C03", "stateful history generation (proptest tapes) against an f64 reference model of the documented update equations; metamorphic rank-independence and slot-isolation relations",
+    "Histories of up to 60 (thorough 300) update steps over up to 4 interleaved (layer, filter, bias) slots of rank 1-3, all five optimizers and option combinations, six gradient classes, four step-number patterns; "
+    "each library step is compared with the documented equations (f64 model, tolerance scaled by an f32 shadow run), across ranks (<= 4 ulp) and against a solo run of the slot (bitwise). Sampling, no exhaustiveness.",
+    "Reference state is kept by the harness (library state is private); a hyper-parameter of exactly 0 follows validate()'s substitution table; ill-conditioned centred-RMSprop steps only require finiteness.",
+    "DESIGN.md 4/C03")
+add("C06", "proptest over objective x clamp x rank x boundary-heavy contents; f64 formula oracle, numerical-derivative oracle, 3-D==flat and clamp metamorphic relations",
+    "60 000 (thorough 3 000 000) generated prediction/target pairs per run over all 7 objectives with exact 0/1/eps boundary values, equal elements, 1-ulp-apart pairs, denormals; loss and every gradient component compared with the documented formulas, "
+    "gradient = derivative of the loss for AE/MSE/BCE/KL, clamped == clamp(unclamped) bitwise, 3-D == flat bitwise. Sampling.",
+    "Within 2e-6 of 0 or 1 (the library's undocumented clamping zone) only finiteness is required; RMSE/MAE gradients follow their doc formulas.",
+    "DESIGN.md 4/C06")
+add("C07", "exhaustive enumeration of all 2^32 single-precision bit patterns (thorough) / prime-stride progression + boundary neighbourhoods (quick) against f64 definitions; proptest for soft-max with exact-shift metamorphic relation",
+    "Thorough: every finite f32 bit pattern x 5 element-wise activations x forward/backward through the public tensor API, alternating flat and 3-D blocks (exhaustive for the element-wise clause). "
+    "Quick: ~2.4 million patterns incl. 512 around every exponent boundary and the exp/cosh overflow points. Soft-max: sampled lengths 1..64, six input classes incl. +-3e38, shift invariance on exact grids.",
+    "Tolerances: 4 ulp (forward) / 8 ulp (backward) of the f64 definition plus an absolute term (f32 min-normal where exp/cosh overflow flushes to 0, 1.8e-7 for sigmoid' cancellation); ReLU-family derivative at +-0 may be either one-sided value.",
+    "DESIGN.md 4/C07")
+add("C14", "proptest over shapes/targets/contents against an explicit row-major index model; round-trip and refusal oracles",
+    "60 000 (thorough 5 000 000) generated (operation, source shape, target shape, contents) cases incl. size-1 axes, non-square shapes, unequal counts, reshape chains via vectors; element [c][h][w] compared bitwise with position c*H*W+h*W+w, recorded shape vs nested lengths, there-and-back identity, unequal counts must panic.",
+    "vector->vector reshape of another length is not required to be refused (the statement names vector<->3-D and 3-D<->3-D).",
+    "DESIGN.md 4/C14")
+add("C15", "proptest over operation x rank x shape x content classes against a scalar IEEE reference; shape-mismatch refusal oracle",
+    "80 000 (thorough 6 000 000) generated cases over 12 operations, ranks 1-4 and nested lists, signed zeros / subnormals / mixed magnitudes; add/sub/mul/div/outer/transpose/clamp bitwise, Hadamard within 2 ulp of the exact product, mean and dot within a summation bound; mismatched operands must panic.",
+    "dot() and product() are not required to refuse mismatched operands (the statement lists refusal for the in-place element-wise operations).",
+    "DESIGN.md 4/C15")
